@@ -7,7 +7,7 @@
     Specifications: ImportSpec.v ([Resolvable] = every transitive import can be satisfied; [CodeResolvable] =
     what the importer's own traversal demands; the hypotheses [NoErrs], [Shallow], [AcyclicFiles], [NoTwin]). *)
 From Coq Require Import String Ascii List Bool.
-From LC Require Import ImportDefs ImportSpec ImportProofs.
+From LC Require Import ImportDefs ImportSpec ImportProofs ImportPost.
 Import ListNotations.
 Local Open Scope string_scope.
 
@@ -138,11 +138,40 @@ Theorem C07_unresolved_test_crash_refuted :
 Proof. exact ImportProofs.unresolved_test_crash_refuted. Qed.
 Print Assumptions C07_unresolved_test_crash_refuted.
 
-(** What does hold of the post-condition, for the code as it is: after resolveImports = true every import source of
-    the model has its model (the first thing isResolved() tests).  The full statement
-      resolve_true_post_partial : resolveImports = true -> hasUnresolvedImports() = false
-    under (NoErrs, Shallow, AcyclicFiles, NoTwin, history popped or no sibling imports, no dangling references)
-    is NOT PROVED: it needs a second simulation (links written by the fetch ⊇ links read by performTestWithHistory). *)
+(** The post-condition, with everything it needs stated.  With the history of Units::performTestWithHistory popped
+    (fx_pop; fixes/C07-units-history-pop.diff), for files that are Shallow, ranked (no file imports in a circle),
+    pairwise different and different from the origin model, whose import URLs are not the marker ":this:", and an
+    origin model whose own local units are used shallowly: from a library that caches the file system,
+      resolveImports = true  ->  hasUnresolvedImports() = false   (for every sufficient fuel).
+    Each hypothesis is needed: fx_pop by C07_resolve_true_post_refuted, Shallow by …_refuted_unexamined, the local
+    conditions by C07_unresolved_test_crash_refuted / the K3 witness. *)
+Theorem C07_resolve_true_post_partial : forall fs strict m0 fx (rank : string -> nat),
+  fx_pop fx = true ->
+  Shallow fs ->
+  (forall k sm url, fs_model fs k = Some sm -> In url (import_urls sm) -> rank (mk_key url) < rank k) ->
+  NoTwin fs m0 -> NoTwinFiles fs ->
+  (forall url, In url (import_urls m0) -> url <> origin_ref) ->
+  (forall k sm url, fs_model fs k = Some sm -> In url (import_urls sm) -> url <> origin_ref) ->
+  OriginShallow m0 ->
+  forall fuel st st', cons fs st -> resolve_imports fuel strict fs st m0 = Ok (true, st') ->
+  exists N, forall fuel', N <= fuel' -> has_unresolved_imports fx fuel' st' m0 = Ok false.
+Proof. exact ImportPost.resolve_true_post_partial. Qed.
+Print Assumptions C07_resolve_true_post_partial.
+
+Example C07_resolve_true_post_nonvacuous :
+  exists fx (rank : string -> nat) st',
+    fx_pop fx = true /\ Shallow ex_fs /\
+    (forall k sm url, fs_model ex_fs k = Some sm -> In url (import_urls sm) -> rank (mk_key url) < rank k) /\
+    NoTwin ex_fs ex_m0 /\ NoTwinFiles ex_fs /\
+    (forall url, In url (import_urls ex_m0) -> url <> origin_ref) /\
+    (forall k sm url, fs_model ex_fs k = Some sm -> In url (import_urls sm) -> url <> origin_ref) /\
+    OriginShallow ex_m0 /\ cons ex_fs empty_state /\
+    resolve_imports (fuel_bound ex_fs empty_state) true ex_fs empty_state ex_m0 = Ok (true, st').
+Proof. exact ImportPost.post_nonvacuous. Qed.
+Print Assumptions C07_resolve_true_post_nonvacuous.
+
+(** For the code as it is (history not popped), what does hold after resolveImports = true: every import source of
+    the model has its model (the first thing isResolved() tests). *)
 Theorem C07_resolve_true_links_partial : forall fuel strict fs st m0 st',
   resolve_imports fuel strict fs st m0 = Ok (true, st') ->
   (forall u, In u (imported_units m0) -> units_linked st' u) /\
